@@ -36,6 +36,10 @@
 //         beside: P and Q on two threads, each in its own VM, started together     twice: P, then P again in another fresh VM
 //       stdout: the record of P's VM (of the last P for `twice`): result:state:<level:code[:M<text>],...>
 //       Every text is preprocessed (so __COUNTER__ etc. are expanded) and parsed by the VM that runs it.
+//
+//   h_api clock
+//       C20: "<ns per clock query>\t<hex P>": P in a fresh VM (no time limit) under a clock that advances by that much with every
+//       query of any clock (system_clock, steady_clock: both are clock_gettime).  stdout: "<record as in iso>\tqueries=<n>"
 #define VH_VIRTUAL_CLOCK
 #include "sqfrt.hpp"
 #include "parser/assembly/assembly_parser.h"
@@ -377,6 +381,17 @@ int main(int argc, char** argv)
                 }
                 return "BADMODE";
             }, 60000, API_MEM_MB);
+        }
+        else if (mode == "clock" && f.size() == 2)
+        {
+            // <nanoseconds the clock advances per query> <program>: a fresh VM without a time limit runs the program under a clock
+            // that moves by that much every time anybody in the process asks for the time (system_clock and steady_clock alike)
+            out = forked([&]() -> std::string {
+                vh::g_clock_ns = 1000000000LL * 1700000000LL; vh::g_clock_tick_ns = std::stoll(f[0]);
+                auto a = make_vm("full");
+                std::string r = run_text(*a, unhex(f[1]));
+                return r + "\tqueries=" + std::to_string(vh::g_clock_tick_ns ? (vh::g_clock_ns - 1000000000LL * 1700000000LL) / vh::g_clock_tick_ns : -1);
+            }, 15000, API_MEM_MB);
         }
         else out = "BADLINE";
         for (auto& ch : out) if (ch == '\n') ch = ' ';
